@@ -46,6 +46,21 @@ def gen(rng, tier):
                 ops.append(['get'])
         ops.append(['get'])
         yield Case(sx.dump(['cov', ['regs'] + [[R.h(c), s, e] for c, s, e in regs], ['ops'] + ops]), reset_then_ins and insat and multi, mode)
+    # long region lists (65..300) swept almost completely between two resets, then sparse touches
+    for k in range(8 if tier == 'quick' else 60):
+        nreg = rng.choice([65, 66, 100, 129, 257, 300])
+        chs = R.chrom_set(rng, 2)
+        regs = []
+        x = 0
+        for i in range(nreg):
+            x += rng.randint(0, 6); L = rng.randint(1, 12)
+            regs.append((chs[i % len(chs)] if k % 2 else chs[0], x, x + L)); x += L
+        if k % 3 == 0:
+            rng.shuffle(regs)
+        def sweep(frac):
+            return [['ins', R.h(c), s_ + rng.randint(0, max(0, e_ - s_ - 1)), e_ + rng.randint(0, 2), rng.choice([1, 1, 2])] for (c, s_, e_) in regs if rng.random() < frac]
+        ops = sweep(rng.choice([0.3, 0.95, 1.0])) + [['get'], ['reset'], ['get']] + sweep(0.03) + [['insat', rng.randrange(nreg), 2], ['get'], ['reset'], ['get']] + sweep(0.05) + [['get']]
+        yield Case(sx.dump(['cov', ['regs'] + [[R.h(c), s_, e_] for c, s_, e_ in regs], ['ops'] + ops]), True, 'many-regions')
 
 
 def canon(case, out):
